@@ -276,12 +276,9 @@ pub fn c10_table(_tier: &str) -> Value {
     let short_wire = |name: &str, ch: u8| { let (b, c) = wire_of(name, ch); (wire_name(name, c), adc_raw(b, 128 + c, &vec![3000i16; 80])) };
     table.push(("single wire bank shorter than the delay", vec![t(), short_wire("09", 3)], true));
     table.push(("duplicate wire bank, second copy shorter than the delay", vec![t(), good_wire("09", 3), short_wire("09", 3)], false));
-    // recorded finding (known_findings.txt): when the FIRST copy is the short one nothing was stored, so the second copy finds its slot
-    // empty and the duplicate goes unnoticed.  These two rows are reported as a named sub-result, not as a failure of the table.
-    let known_rows: Vec<(&str, Banks)> = vec![
-        ("duplicate wire bank, first copy shorter than the delay", vec![t(), short_wire("09", 3), good_wire("09", 3)]),
-        ("duplicate wire bank, both copies shorter than the delay", vec![t(), short_wire("09", 3), short_wire("09", 3)]),
-    ];
+    // the order of the copies must not matter (fixed in /repo commit fac8979: the first of these two used to be accepted)
+    table.push(("duplicate wire bank, first copy shorter than the delay", vec![t(), short_wire("09", 3), good_wire("09", 3)], false));
+    table.push(("duplicate wire bank, both copies shorter than the delay", vec![t(), short_wire("09", 3), short_wire("09", 3)], false));
     table.push(("wire bank name / payload board mismatch", vec![t(), (wire_name("10", 3), good_wire("09", 3).1)], false));
     table.push(("wire bank name / payload channel mismatch", vec![t(), (wire_name("09", 4), good_wire("09", 3).1)], false));
     { let (b, _) = wire_of("09", 0); table.push(("wire bank holding a barrel-veto (ADC16) channel", vec![t(), ("C093".into(), adc_raw(b, 3, &vec![3000i16; 300]))], false)); }
@@ -317,20 +314,7 @@ pub fn c10_table(_tier: &str) -> Value {
         };
         if let Some(reason) = bad { return json!({"status": "failed", "target": target, "bound": bound, "cases": cases, "distinct": cases, "reason": reason, "witness": w}); }
     }
-    let mut accepted: Vec<&str> = Vec::new();
-    for (what, banks) in &known_rows {
-        cases += 1;
-        match run_event(banks.clone(), false) {
-            Err(p) => return json!({"status": "failed", "target": target, "bound": bound, "cases": cases, "distinct": cases, "reason": format!("{what}: panic {p}"), "witness": null}),
-            Ok(Ok(_)) => accepted.push(what),
-            Ok(Err(_)) => {}
-        }
-    }
-    let mut r = json!({"status": "bounded-ok", "target": target, "bound": bound, "cases": cases, "distinct": cases});
-    if !accepted.is_empty() {
-        r["findings"] = json!([{"label": "duplicate_wire_bank_after_short_copy", "reason": format!("accepted, must be rejected: {}", accepted.join("; "))}]);
-    }
-    r
+    json!({"status": "bounded-ok", "target": target, "bound": bound, "cases": cases, "distinct": cases})
 }
 pub fn confirm_event(w: &Value) -> Value {
     let banks: Banks = w["banks"].as_array().map(|a| a.iter().map(|p| (p[0].as_str().unwrap_or("").to_string(), crate::ops::hex(p[1].as_str().unwrap_or("")))).collect()).unwrap_or_default();
